@@ -279,7 +279,7 @@ METHODS = {'SpotDiagram': ['centroid', 'geometric_spot_radius',
            'EncircledEnergy': ['centroid'],
            'RmsSpotSizeVsField': ['rms_spot_radius', 'centroid'],
            'GeometricMTF': ['centroid', 'rms_spot_radius'],
-           'OPD': ['rms'], 'ZernikeOPD': ['rms'],
+           'OPD': ['rms'], 'ZernikeOPD': ['rms', 'coeffs'],
            'FFTPSF': ['strehl_ratio']}
 
 
@@ -334,6 +334,28 @@ def do_step(lens, slots, st):
                                for q in ('x', 'y', 'z', 'L', 'M', 'N', 'i',
                                          'opd')}
                 obs['rec'] = records(lens)
+            elif c == 'zfit':
+                # a Zernike fit of caller-owned sample arrays (pupil
+                # coordinates need not be normalised)
+                from optiland.zernike import ZernikeFit
+                args = slots.get(st['slot'])
+                if args is None:
+                    return {'skipped': 'no arguments'}
+                before = {k: _snap_arg(v) for k, v in args.items()}
+                try:
+                    z_ = args['z']
+                    if st.get('flip'):
+                        z_ = z_[::-1].copy()      # other data, same pupil
+                    zf = ZernikeFit(args['x'], args['y'], z_,
+                                    st.get('ztype', 'fringe'),
+                                    st.get('terms', 6))
+                    obs['ret'] = canon(list(zf.coeffs), squeeze1=False)
+                    if st.get('keep'):
+                        slots[st['keep']] = zf
+                finally:
+                    for k, v in args.items():
+                        if _snap_arg(v) != before[k]:
+                            mutated.append(k)
             elif c == 'px':
                 obs['ret'] = canon(getattr(lens.paraxial, st['name'])(),
                                    squeeze1=False)
@@ -380,7 +402,12 @@ def do_step(lens, slots, st):
                 o = slots.get(st['slot'])
                 if o is None or isinstance(o, dict):
                     return {'skipped': 'no object'}
-                obs['ret'] = canon(getattr(o, st['name'])(), squeeze1=False)
+                r_ = getattr(o, st['name'])
+                if callable(r_):
+                    r_ = r_()
+                elif isinstance(r_, list):
+                    r_ = list(r_)        # a property read (e.g. coeffs)
+                obs['ret'] = canon(r_, squeeze1=False)
                 obs['obj'] = snap_obj(o)
             elif c == 'view':
                 import matplotlib.pyplot as plt
@@ -464,6 +491,30 @@ def gen_client(ch, kind, meta):
             if ch.chance(0.25):
                 st['wis'] = [ch.randint(0, 2) for _ in range(6)]
             steps.append(st)
+    elif kind == 'zfit':
+        n = ch.randint(8, 14)
+        sc = ch.pick([1.0, 1.0, ch.rounded(ch.uniform(2.0, 12.5), 3)],
+                     tag='pupil_units')
+        xs = [ch.rounded(sc * ch.uniform(-0.7, 0.7), 4) for _ in range(n)]
+        ys = [ch.rounded(sc * ch.uniform(-0.7, 0.7), 4) for _ in range(n)]
+        zs = [ch.rounded(ch.uniform(-0.5, 0.5), 4) for _ in range(n)]
+        steps.append({'c': 'mk', 'slot': 'z',
+                      'args': {'x': ['array', xs], 'y': ['array', ys],
+                               'z': ['array', zs]}})
+        zt = ch.pick(['fringe', 'standard', 'noll'])
+        steps.append({'c': 'zfit', 'slot': 'z', 'ztype': zt,
+                      'terms': ch.pick([3, 4, 6]), 'keep': 'f1'})
+        steps.append({'c': 'method', 'slot': 'f1', 'name': 'coeffs',
+                      'rep': 'z0', 'ret_only': True})
+        if ch.chance(0.7):
+            # a second fit alive at the same time (other data), then the
+            # first one's result is read again
+            steps.append({'c': 'zfit', 'slot': 'z', 'flip': True,
+                          'ztype': zt if ch.chance(0.7) else
+                          ch.pick(['fringe', 'standard', 'noll']),
+                          'terms': ch.pick([3, 4, 6])})
+            steps.append({'c': 'method', 'slot': 'f1', 'name': 'coeffs',
+                          'rep': 'z0', 'ret_only': True})
     elif kind == 'paraxial':
         for _ in range(ch.randint(2, 6)):
             if ch.chance(0.2):
@@ -522,6 +573,12 @@ def gen_client(ch, kind, meta):
                 steps.append({'c': 'view', 'slot': 'o', 'kw': name[1]})
             else:
                 steps.append({'c': 'method', 'slot': 'o', 'name': name})
+        if cls == 'ZernikeOPD' and ch.chance(0.5):
+            # a second fit of the same kind (another field) made while the
+            # first one is still in use
+            kw2 = dict(kw, field=list(_fields(ch)))
+            steps.append({'c': 'method', 'slot': 'o', 'name': 'coeffs'})
+            steps.append({'c': 'new', 'cls': cls, 'slot': 'o2', 'kw': kw2})
         if any(s_['c'] == 'method' for s_ in steps) and ch.chance(0.6):
             # the same query again on the same object, after the others:
             # "the same analysis call repeated returns identical results"
@@ -688,7 +745,8 @@ def gen_client(ch, kind, meta):
 
 KINDS = [('trace', 3), ('tg', 3), ('paraxial', 3), ('aberr', 1.5),
          ('analysis', 4), ('operand', 2), ('repeat', 2), ('batch', 1.5),
-         ('batch_trace', 1.2), ('fft', 1.2), ('faulty', 1.5)]
+         ('batch_trace', 1.2), ('fft', 1.2), ('faulty', 1.5),
+         ('zfit', 0.6)]
 
 
 def build_lens(ops):
